@@ -59,6 +59,14 @@ impl TryFrom<EdgeLoaderConfig> for EdgeLoader {
         let edges = read_utils::from_csv(&c.edge_list_csv, true, Some(cb))?;
 
         eprintln!();
+        if !missing_vertices.is_empty() {
+            // such an edge would appear in only one of the two adjacency directions
+            return Err(NetworkError::DatasetError(format!(
+                "edge list references {} vertex id(s) not present in the vertex list ({} vertices)",
+                missing_vertices.len(),
+                c.n_vertices
+            )));
+        }
         let result = EdgeLoader {
             edges,
             adj: adj.into_boxed_slice(),
